@@ -21,6 +21,10 @@ func runSelfTests(ps *PropSpec, root, repo string, patterns []string, tags strin
 	if m, _ := filepath.Glob(filepath.Join(root, "seeded", ps.ID, "patch.diff")); len(m) > 0 {
 		diffs = append(diffs, m...)
 	}
+	if m, _ := filepath.Glob(filepath.Join(root, "seeded", ps.ID+"-r*", "patch.diff")); len(m) > 0 {
+		sort.Strings(m)
+		diffs = append(diffs, m...)
+	}
 	if m, _ := filepath.Glob(filepath.Join(root, "mutants", ps.ID, "*.diff")); len(m) > 0 {
 		sort.Strings(m)
 		diffs = append(diffs, m...)
